@@ -383,6 +383,9 @@ def _directed(ctx):
         (List, List[Any]), (Dict, Dict[Any, Any]), (tuple, Tuple[Any, ...]), (L[1, 2], Union[L[1], L[2]]), (L[None], None), (GT, GT[Any]), (GB, GB[int]),
         (GC, GC[Union[str, bool]]), (typing.Sequence, typing.Sequence[Any]), (cabc.Iterable, cabc.Iterable[Any]), (typing.Mapping, typing.Mapping[Any, Any]), (Set, Set[Any]),
         (FrozenSet, FrozenSet[Any]), (typing.Collection, typing.Collection[Any]), (typing.AbstractSet, typing.AbstractSet[Any]),
+        # equivalent spellings of one generic model inside a union collapse to the model (thorough-tier finding, repo fix 7eabfec)
+        (GT[Any], Union[GT[Any], GT]), (Union[bytes, GT[Any], GT[bool]], Union[bytes, GT, GT[bool], GT[Any]]), (Set[Union[GT[Any], int]], Set[Union[GT, GT[Any], int]]),
+        (GB[int], Union[GB, GB[int]]), (List[GT[Any]], List[Union[GT, GT[Any]]]),
     ]
     for a, b in pairs_equal:
         check_equivalent(ctx, ("leaf", a), a, b, 0, predicates=bool(typing.get_args(a)) or a is None)
